@@ -148,6 +148,10 @@ class C27(Scenario):
                 uos.append(ui)
             steps.append([0, u["op"]])
             uos.append(ui)
+            if seen_setup_end and u["op"][0] == "lit" and isinstance(u["op"][1], int):
+                # a user container made inside a step: observe it before the call it is made for
+                steps.append([0, ["snap", None, [u["op"][1]], True]])
+                uos.append(ui)
             if u["k"] == "alg":
                 nalg += 1
                 steps.append([0, ["snap", None, u["inputs"], True]])
